@@ -774,7 +774,13 @@ class ParallelProcess(Process):
         '''
         if run_pre_check:
             self.pre_send_command(command, args, kwargs)
-        self.parent.send((command, args, kwargs))
+        try:
+            self.parent.send((command, args, kwargs))
+        except Exception:
+            # Nothing was sent (for example, the arguments cannot be
+            # pickled): no answer is pending.
+            self._pending_command = None
+            raise
 
     def get_command_result(self) -> Update:
         """Get the result of a command sent to the parallel process.
